@@ -88,7 +88,19 @@ class Stub:
         key = f"pure:{cls}.{name}"
         table = self._ufs.get(key)
         if table is None:
+            q = CALLS.get(f"{cls}.{name}")
+            if q is not None:
+                kindattr = ATTR_KINDS.get(f"{cls}.{name}")
+                if kindattr == "attribute":
+                    return pop_call(f"{cls}.{name}")
+                return lambda *a, **k: pop_call(f"{cls}.{name}")
             raise AttributeError(f"stub {self._sort} has no model for {name}")
+        if ATTR_KINDS.get(f"{cls}.{name}") == "attribute":
+            ids = [self._sid]
+            for row_args, val in table["rows"]:
+                if row_args == ids:
+                    return _wrap_val(val, self)
+            return _wrap_val(table["else"], self)
 
         def method(*args, **kw):
             ids = [self._sid] + [_idof(a) for a in args] + [_idof(v) for _, v in sorted(kw.items())]
@@ -124,6 +136,43 @@ def _parse_val(s):
     if isinstance(s, str) and s.startswith('"') and s.endswith('"'):
         return s[1:-1]
     return s
+
+
+CALLS = {}  # target -> list of pending results (native stubs for abstracted callees)
+ATTR_KINDS = {}
+GHOST = {}
+EFFECTS = {}  # target -> {ghost name: clause}
+CTX = {}
+
+
+def pop_call(target):
+    q = CALLS.get(target) or []
+    if not q:
+        raise Undecodable(f"replay: more calls of {target} than in the model path")
+    item = q.pop(0)
+    if item["raised"]:
+        import builtins
+
+        exc = getattr(builtins, item["raised"], None)
+        if exc is None:
+            raise Undecodable(f"cannot raise {item['raised']} natively")
+        raise exc()
+    res = decode(item["result"], CTX)
+    for g, cl in EFFECTS.get(target, {}).items():
+        if cl.strip() == "result":
+            GHOST[g] = res
+    return res
+
+
+def _wrap_val(val, stub):
+    v = _parse_val(val)
+    if isinstance(v, str) and "!val!" in v:
+        sort = v.split("!val!")[0]
+        key = (sort, v)
+        if key not in CTX.get("stubs", {}):
+            CTX["stubs"][key] = Stub(v, sort, sort, stub._ufs, stub._oc)
+        return CTX["stubs"][key]
+    return v
 
 
 class Undecodable(Exception):
@@ -167,7 +216,10 @@ def decode(v, ctx):
             return resolve(v["cls"])
         if t == "obj":
             cls = resolve(v["cls"])
-            o = object.__new__(cls)
+            try:
+                o = object.__new__(cls)
+            except TypeError:
+                o = cls.__new__(cls)
             for k, x in v["fields"].items():
                 object.__setattr__(o, k, decode(x, ctx))
             return o
@@ -231,7 +283,19 @@ def is_instance(v, name):
     return any(c.__name__ == name for c in type(v).__mro__)
 
 
-NATIVE_HELPERS = {"implies": implies, "iff": iff, "forall": forall, "exists": exists, "length": length, "elem": elem, "ite": ite,
+def ghost(name):
+    return GHOST.get(name)
+
+
+def upper(s):
+    return s.upper()
+
+
+def lower(s):
+    return s.lower()
+
+
+NATIVE_HELPERS = {"ghost": ghost, "upper": upper, "lower": lower, "implies": implies, "iff": iff, "forall": forall, "exists": exists, "length": length, "elem": elem, "ite": ite,
                   "is_instance": is_instance}
 
 
